@@ -163,7 +163,7 @@ func c08NameCheck(c c08Name, info *vlib.Info) *vlib.Failure {
 				}()
 				select {
 				case <-done:
-				case <-time.After(3 * time.Second):
+				case <-time.After(10 * time.Second):
 					// unblock the reader, then report
 					if w, err := os.OpenFile(target, os.O_WRONLY|syscall.O_NONBLOCK, 0); err == nil {
 						w.Close()
